@@ -38,7 +38,7 @@ def ev_term(t, y, **kw):
 ev_term.is_terminal = True
 
 OPS = [("int",), ("intT", 1.0), ("intT", 0.5), ("dt", 0.125), ("rtol", 1e-4), ("atol", 1e-4), ("method", "RK4Solver"), ("method", "ABAs5o6HSolver"),
-       ("tf", 3.0), ("kick", (True, False)), ("ev",), ("fault",), ("reset",), ("observe",)]
+       ("tf", 3.0), ("kick", (True, False)), ("ev",), ("fault",), ("reset",), ("observe",), ("consts", "assign"), ("consts", "inplace")]
 
 
 def coeff_hash():
@@ -55,11 +55,11 @@ def coeff_hash():
 def fresh(cfg, settings=None):
     de, I = lc._imports()
     dtype = lc.DT[cfg["dtype"]]
-    st = dict(method=cfg["method"], rtol=1e-6, atol=1e-6, tf=TF, kick=None)
+    st = dict(method=cfg["method"], rtol=1e-6, atol=1e-6, tf=TF, kick=None, k=1.0)
     if settings:
         st.update(settings)
     y0 = np.array([0.0, 1.0], dtype=dtype)
-    consts = dict(k=1.0)
+    consts = dict(k=st["k"])
     a = de.OdeSystem(f_osc, y0=y0, t=(dtype(T0), dtype(st["tf"])), dt=dtype(DT0), rtol=dtype(st["rtol"]), atol=dtype(st["atol"]),
                      dense_output=bool(cfg["dense"]), constants=consts)
     a.method = method_of(st["method"])
@@ -102,6 +102,13 @@ def apply_op(a, op, dtype, settings):
             a.integrate(callback=[cb, b])
         elif k == "reset":
             a.reset()
+        elif k == "consts":
+            # the constants of the system change between calls (a parameter scan on one object): by assigning a new dict, or inside the dict the system holds
+            if op[1] == "assign":
+                a.constants = dict(k=2.25)
+            else:
+                a.constants["k"] = 2.25
+            settings["k"] = 2.25
         elif k == "observe":
             # a reader looks at everything the API exposes; looking must not change anything
             before = driver.canon(a)
@@ -132,7 +139,7 @@ def ops_fn(cfg, hist):
     ops = list(OPS)
     used = [o[0] for o in hist]
     # each setter at most once per history, at most one fault and one event run (keeps the alphabet finite and the histories distinct)
-    ops = [o for o in ops if not (o[0] in ("dt", "rtol", "atol", "tf", "kick", "fault", "ev") and o[0] in used)]
+    ops = [o for o in ops if not (o[0] in ("dt", "rtol", "atol", "tf", "kick", "fault", "ev", "consts") and o[0] in used)]
     if used.count("method") >= 1:
         ops = [o for o in ops if o[0] != "method"]
     if hist and hist[-1][0] == "reset":
@@ -164,7 +171,8 @@ def step(cfg, hist):
     if key1 != key2:
         r.v("C13/nondeterministic/%s" % name, "identical call sequences give bit-for-bit identical results", case, observed=dict(key1=key1, key2=key2), expected="equal")
     # (5) the caller's y0 and constants are never modified; shared coefficient tables untouched
-    if not np.array_equal(y0, np.array([0.0, 1.0], dtype=dtype)) or consts != dict(k=1.0):
+    caller_changed_them = any(o[0] == "consts" and o[1] == "inplace" for o in hist)      # (the caller itself wrote into the dict the system holds - possibly its own)
+    if not np.array_equal(y0, np.array([0.0, 1.0], dtype=dtype)) or (consts != dict(k=1.0) and not caller_changed_them):
         r.v("C13/caller-data-modified/%s" % name, "the caller's initial state array and constants are never modified", case, observed=dict(y0=y0.astype(float), constants=consts), expected=dict(y0=[0.0, 1.0], constants=dict(k=1.0)))
     if coeff_hash() != ch0:
         r.v("C13/coefficients-modified/%s" % name, "class-level coefficient tables are never modified", case, observed="hash changed", expected="unchanged")
